@@ -18,8 +18,8 @@ for p in sorted(glob.glob(os.path.join(ROOT, "seeded", "*", "meta.json"))):
     summ = re.sub(r"\s+", " ", m.get("summary") or "")[:170]
     files = ", ".join(f.replace("src/", "") for f in (m.get("files_changed") or []))
     rows.append(f"| {name} | {files} | {summ} | {chk.get('verdict','?')}: {first} | {also or '–'} | {silent or '–'} |")
-text = f"""Seventy-two changes were produced in two rounds by fresh sub-agents (round 1: twenty agents, two
-changes per property; round 2: sixteen agents, two more for C01–C05, C07, C09, C11, C13–C20, told which
+text = f"""Eighty changes were produced in two rounds by fresh sub-agents (round 1: twenty agents, two
+changes per property; round 2: twenty agents, two more per property, told which
 ideas round 1 had used and asked for different functions, drivers and kinds of mistake), each given
 only the property text and its own scratch worktree of `/repo` — nothing from `/verif`.  Each change
 compiles, passes the 57 existing tests, and comes with a demonstration that fails with it and passes
@@ -37,7 +37,7 @@ submission/consumption counts under scribbling; C08 got a feature-use oracle for
 (a credit update is injected, a packet with a body is sent: INDIRECT only if negotiated, NO_NOTIFY
 honoured without EVENT_IDX); C19 got floods of more than 65 536 events.
 
-Round 2, first pass: 22 of 32 concrete, 2 `no-failing-input-found` (C07-3, C13-3), 8 missed.  What
+Round 2, first pass: 29 of 40 concrete, 3 `no-failing-input-found` (C07-3, C08-3, C13-3), 8 missed.  What
 was missing and what was added (all in the harness; no oracle was loosened):
 
 | missed | why | added |
@@ -52,8 +52,9 @@ was missing and what was added (all in the harness; no oracle was loosened):
 | C14-4 block capacity read outside `read_consistent` | C14 never changed the configuration mid-read (C13 did) | C14 includes the block cases of C13's changing-configuration stream |
 | C15-3 `recv(pop)` loads the byte after re-posting the buffer | needs in-place sharing and a device that fills at the notification | `LedgerHal` can share in place; half of the honest console cases use it; the device may fill the re-posted buffer inside the notifying call |
 | C16-4 `receive_wait` completes whatever token is reported first | blocking receive was never issued behind a pending completion | it is now; expected `WrongToken`, nothing consumed |
+| C08-3 `finish_init` writes `get_status() \| DRIVER_OK` | the model transport's status register read back exactly what was written (only the extra `get_status` call showed, as a model disagreement) | the register reads back with FEATURES_OK cleared or DEVICE_NEEDS_RESET raised: the driver's status writes must not depend on it |
 
-All 72 are now reported with a concrete replay by the check of their own property.  The last two
+All 80 are now reported with a concrete replay by the check of their own property.  The last two
 columns come from running further related checks against a change (`tools/seed_cross.py`, run for part
 of round 1 only); † = reported as `no-failing-input-found`.
 
